@@ -6,7 +6,7 @@ from dataclasses import replace
 from typing import Any, List, Optional
 
 from . import schema
-from .domains import (BoolV, BoundV, ClsV, Const, DictE, ElemE, ExcV, ExtV, FuncV, IdxE, IterV, LenV, ListE,
+from .domains import (PartV, BoolV, BoundV, ClsV, Const, DictE, ElemE, ExcV, ExtV, FuncV, IdxE, IterV, LenV, ListE,
                       MethV, ModV, NoneV, NumV, ObjE, Ref, S, State, StrV, TupleV, Unknown, Val)
 from .front import AnalysisError, norm
 from .model2 import STR_METHODS_BOOL, STR_METHODS_STR
@@ -412,6 +412,35 @@ class ModelMixin3:
             if not name.endswith('.read_bytes'):
                 s3 = st.copy()
                 outs.append((self.exc('UnicodeDecodeError', s3, node, 'the file is not valid text in the chosen encoding'), s3))
+            return outs
+        if name == 'functools.partial' and args:
+            return [(PartV('partial', args[0], tuple(args[1:]), tuple(sorted(kwargs.items()))), st)]
+        if name in ('operator.attrgetter', 'operator.itemgetter', 'operator.methodcaller'):
+            return [(PartV(name.split('.')[-1], None, tuple(args), tuple(sorted(kwargs.items()))), st)]
+        if name in ('collections.OrderedDict',):
+            return self.builtin('dict', args, kwargs, st, node)
+        if name in ('collections.deque',) and len(args) <= 1 and not kwargs:
+            return self.builtin('list', args, kwargs, st, node)
+        if name == 'itertools.islice' and len(args) in (2, 3, 4) and all(isinstance(a, (Const, NoneV)) for a in args[1:]):
+            nums = [None if isinstance(a, NoneV) else a.v for a in args[1:]]
+            spec = (None, nums[0], None) if len(nums) == 1 else (nums + [None])[:3]
+            outs = []
+            for lv, s in self.builtin('list', [args[0]], {}, st, node):
+                outs.extend([(lv, s)] if isinstance(lv, _Raise()) else self.model_slice(lv, tuple(spec), s, node))
+            return outs
+        if name == 'itertools.starmap' and len(args) == 2:
+            import ast as _ast
+            fname, xname, vname = '%mapf', '%mapxs', '%mapx'
+            st.frame.env[fname], st.frame.env[xname] = args[0], args[1]
+            call = _ast.Call(func=_ast.Name(id=fname, ctx=_ast.Load()), args=[_ast.Starred(value=_ast.Name(id=vname, ctx=_ast.Load()), ctx=_ast.Load())], keywords=[])
+            gen = _ast.comprehension(target=_ast.Name(id=vname, ctx=_ast.Store()), iter=_ast.Name(id=xname, ctx=_ast.Load()), ifs=[], is_async=0)
+            comp = _ast.ListComp(elt=call, generators=[gen])
+            _ast.copy_location(comp, node) if node is not None else None
+            _ast.fix_missing_locations(comp)
+            outs = self.comprehension(comp, st, 'list')
+            for _, s in outs:
+                for nme in (fname, xname, vname):
+                    s.frame.env.pop(nme, None)
             return outs
         if name == 'contextlib.suppress':
             names = []
